@@ -533,6 +533,20 @@ func (g *wGen) opWriteMessage(wc *wConn, t int, p []byte) {
 	}
 	if err == nil {
 		wc.sent = append(wc.sent, apiMsg{t, p})
+	} else if !wc.errSeen && !wc.faulted && !wc.closeSnt {
+		// C01 "accepted": a data message of any size and a control message of at most 125 bytes are valid requests
+		if t == 1 || t == 2 {
+			g.sc.violate("%s: WriteMessage(%d, %d bytes) was refused: %v", wc.id, t, len(p), err)
+		} else if (t == 8 || t == 9 || t == 10) && len(p) <= 125 {
+			if len(p) > wc.cap {
+				g.sc.knownHit("F4-control-via-writer-small-buffer", fmt.Sprintf("WriteMessage(%d, %d bytes) with write buffer %d: %v", t, len(p), wc.cap, err))
+			} else {
+				g.sc.violate("%s: WriteMessage(control %d, %d bytes) was refused: %v", wc.id, t, len(p), err)
+			}
+		}
+	}
+	if err == nil && t == 8 {
+		wc.closeSnt = true
 	}
 	g.markResult(wc, err)
 	g.sc.emit(fmt.Sprintf("wm %s %d %s%s", wc.id, t, hx(p), env), g.line(resStr(err)))
@@ -581,6 +595,11 @@ func (g *wGen) opWriteControl(wc *wConn, t int, p []byte, d int) {
 	err := wc.c.WriteControl(t, p, tokTime(d))
 	if err == nil {
 		wc.sent = append(wc.sent, apiMsg{t, p})
+		if t == 8 {
+			wc.closeSnt = true
+		}
+	} else if !wc.errSeen && !wc.faulted && !wc.closeSnt && (t == 8 || t == 9 || t == 10) && len(p) <= 125 && d >= 0 {
+		g.sc.violate("%s: WriteControl(%d, %d bytes) was refused: %v", wc.id, t, len(p), err)
 	}
 	if err != nil && errName(err) != "writeTimeout" {
 		g.markResult(wc, err)
